@@ -1,4 +1,5 @@
 import RocflModel.Theorems.C08
+import RocflModel.Lemmas.ReadForever
 /-
   C02 — committed versions return exactly the ingested bytes, forever.
 
@@ -24,5 +25,47 @@ theorem C02_other_objects_never_change_reads (r : Repo) (now : Str) (op : Op) (i
     (vn : Option Nat) (p : LPath) :
     getObjectFile (step r now op).2 id vn p = getObjectFile r id vn p :=
   getObjectFile_congr _ _ _ _ _ (C08.C08_other_objects r now op id hne).1
+
+theorem fold_keeps (id : Str) (old : Obj) (vn : Nat) (hvn : vn ≤ old.inv.head.number) (p : LPath) :
+    ∀ (h2 : List (Op × Str)) (r : Repo), RepoOk r → ExtInv r →
+      (∀ op ∈ h2, ∀ i, op.1 = Op.purge i → i ≠ id) →
+      ∀ cur, AL.get r.main id = some cur → old.inv.head.number ≤ cur.inv.head.number → readObj cur vn p = readObj old vn p →
+      KeepsRead (h2.foldl (fun r (op : Op × Str) => (step r op.2 op.1).2) r) id old vn p := by
+  intro h2
+  induction h2 with
+  | nil => intro r _ _ _ cur hg hle hrd; exact ⟨cur, hg, hle, hrd⟩
+  | cons op rest ih =>
+    intro r hok hext hnp cur hg hle hrd
+    simp only [List.foldl_cons]
+    obtain ⟨new, hnew, hle', hrd'⟩ := step_keeps_reads r op.2 op.1 hok hext id cur hg
+      (fun i hi => hnp op (by simp) i hi) vn (by omega) p
+    exact ih _ (step_ok r op.2 op.1 hok) (step_ext r op.2 op.1 hext hok)
+      (fun o ho => hnp o (by simp [ho])) new hnew (by omega) (by rw [hrd', hrd])
+
+/-- **forever**: take any history `h1` after which object `id` is committed with versions 1 … n, and
+    any continuation `h2` — staging, failed and successful commits and upgrades of this and other
+    objects, purges of other objects, in any order and with any arguments — that does not purge
+    `id` itself.  Then every version `vn ≤ n` of `id` answers every read exactly as it did after `h1`. -/
+theorem C02_reads_forever (spec : SpecV) (h1 h2 : List (Op × Str)) (id : Str) (old : Obj)
+    (hm : AL.get (run spec h1).main id = some old)
+    (hnp : ∀ op ∈ h2, ∀ i, op.1 = Op.purge i → i ≠ id)
+    (vn : Nat) (hvn : vn ≤ old.inv.head.number) (p : LPath) :
+    getObjectFile (run spec (h1 ++ h2)) id (some vn) p = getObjectFile (run spec h1) id (some vn) p := by
+  obtain ⟨hok, hext⟩ := reachable_ext spec h1
+  have hrun : run spec (h1 ++ h2) = h2.foldl (fun r (op : Op × Str) => (step r op.2 op.1).2) (run spec h1) := by
+    simp [run, List.foldl_append]
+  obtain ⟨new, hnew, _, hrd⟩ := fold_keeps id old vn hvn p h2 (run spec h1) hok hext hnp old hm (Nat.le_refl _) rfl
+  rw [hrun, getObjectFile_eq_readObj _ _ _ _ new hnew, getObjectFile_eq_readObj _ _ _ _ old hm, hrd]
+
+/-- and the object is still there, with at least the versions it had -/
+theorem C02_versions_never_disappear (spec : SpecV) (h1 h2 : List (Op × Str)) (id : Str) (old : Obj)
+    (hm : AL.get (run spec h1).main id = some old)
+    (hnp : ∀ op ∈ h2, ∀ i, op.1 = Op.purge i → i ≠ id) :
+    ∃ new, AL.get (run spec (h1 ++ h2)).main id = some new ∧ old.inv.head.number ≤ new.inv.head.number := by
+  obtain ⟨hok, hext⟩ := reachable_ext spec h1
+  have hrun : run spec (h1 ++ h2) = h2.foldl (fun r (op : Op × Str) => (step r op.2 op.1).2) (run spec h1) := by
+    simp [run, List.foldl_append]
+  obtain ⟨new, hnew, hle, _⟩ := fold_keeps id old 0 (Nat.zero_le _) [] h2 (run spec h1) hok hext hnp old hm (Nat.le_refl _) rfl
+  exact ⟨new, by rw [hrun]; exact hnew, hle⟩
 
 end Rocfl.Theorems.C02
